@@ -75,6 +75,19 @@ func (sig Multi[T]) Len() int {
 	return len(sig)
 }
 
+// distinct returns true if no replica ID occurs more than once among the signers.
+// Len() counts entries, so a signature that repeats a signer must never be accepted.
+func (sig Multi[T]) distinct() bool {
+	seen := make(map[hotstuff.ID]struct{}, len(sig))
+	for _, s := range sig {
+		if _, ok := seen[s.Signer()]; ok {
+			return false
+		}
+		seen[s.Signer()] = struct{}{}
+	}
+	return true
+}
+
 func (sig Multi[T]) String() string {
 	return hotstuff.IDSetToString(sig)
 }
